@@ -99,3 +99,49 @@ PROPS["C11"] = {
                     "apply only observed on the four seed runtimes"],
     "design_ref": "DESIGN.md section 3, C11",
 }
+
+PROPS["C07"] = {
+    "engine": "c07",
+    "level": "exploration",
+    "technique": "instrumented I/O drivers (call log + image copies + statement counter) and a little-endian bit-level image model over generated binding sets; exhaustive direct-address locality sweep",
+    "quick": {"shards": 8, "budget_s": 15},
+    "thorough": {"shards": 16, "budget_s": 240},
+    "floor": {"quick": 1000, "thorough": 20000},
+    "require_counters": {"quick": {"cycles_checked": 5000, "direct_address_cells_checked": 17000, "faulted_cycles_checked": 200},
+                         "thorough": {"cycles_checked": 200000}},
+    "rule": "case = binding set (1-5 %I, 1-5 %Q, 0-2 %M bindings; sizes X/B/W/D/L at offsets incl. 0 and the image end; every type of that size; "
+            "global or program-level AT; 20% allow overlapping %Q) x 2-7 cycles of random driver input bytes and output stimuli, optionally ending in a "
+            "faulting cycle. distinct = sorted binding-set shape; non-trivial = >=1 input and >=1 output binding exercised with changing driver input. "
+            "Plus one exhaustive sweep: 3 areas x 5 sizes x 16 byte offsets x 8 bits x 3 backgrounds x 5 values x {pre-sized, growing image}",
+    "level_text": "Two probe drivers log every read_inputs/write_outputs with a global sequence number, a copy of the image and the interpreter's "
+                  "statement counter (hook H1). Per cycle the monitor checks: call sequence is exactly [read x D][program code][write x D]; every read of an "
+                  "input-bound variable in the first task and in the last background program equals decode(latched bytes); every bit of the %Q/%M image "
+                  "either encodes the final value of a covering binding or is unchanged; drivers received exactly the final image; a faulted cycle publishes "
+                  "nothing. Direct-address read/write locality is swept exhaustively on a bare IoInterface.",
+    "level_note": "Trusted: the 60-line image model in harness/src/engines/c07.rs. With overlapping %Q bindings any covering binding's encoding is accepted per bit.",
+    "assumptions": ["process image pre-sized to 32 bytes per area (as bytecode resource metadata would)", "driver i owns input bytes [16i,16i+16)"],
+    "coverage_extra": {"exhaustive_subspace": "direct-address sweep (observed.direct_address_cells_checked) is complete for byte offsets 0..15"},
+    "design_ref": "DESIGN.md section 3, C07",
+}
+
+PROPS["C08"] = {
+    "engine": "c08",
+    "level": "fault_enumeration",
+    "technique": "fault-point enumeration (statement site x cycle x fault kind, driver read/write failure per driver, watchdog, simulation fault) x policy x safe-state map with latch / refusal / safe-image monitors (statement counter, storage walk, driver call log)",
+    "quick": {"shards": 8, "budget_s": 15},
+    "thorough": {"shards": 16, "budget_s": 600},
+    "floor": {"quick": 1500, "thorough": 5000},
+    "require_counters": {"quick": {"refused_cycles_checked": 4000, "safe_values_checked": 1000, "restarts_checked": 1500}, "thorough": {"faults_fired": 5000}},
+    "rule": "program family: CONFIGURATION with 2 periodic tasks + 1 background program, PROGRAM -> FB -> FUNCTION -> FUNCTION, 9 statement sites; fault = "
+            "(site x {div0, overflow, index, null deref, FOR step 0}) | driver read/write error at driver 0..2 | watchdog_timeout() | simulation_fault(); "
+            "x fault cycle {0,1,4} x policy {halt, safe_halt, restart} x watchdog action x 6 safe-state maps (bit/byte/word/dword/lword, overlapping "
+            "bound outputs, empty) x {no second failing writer, driver 0/1/2 write also failing}. distinct = the fault point tuple; non-trivial = the "
+            "fault actually fired (cycle returned the expected error kind and last_fault is set)",
+    "level_text": "For each fault point the real runtime is driven to the fault and monitors check: the error is reported, faulted() latches, three later "
+                  "cycles return ResourceFaulted with zero executed statements (hook H1), no variable (storage walk) or output byte changes; when safe state "
+                  "applies every safe address holds its value and every driver was handed that image before the call returned; restart clears the latch and "
+                  "cycles execute again. Thorough enumerates the product completely (5715 points); quick covers as much as its budget allows in shuffled order.",
+    "level_note": "Exhaustive for this program family only; other programs are covered by C01's outcome monitor. Driver error policy wrappers above the Runtime API are not exercised.",
+    "assumptions": ["safe-state maps are well-typed for their address size"],
+    "design_ref": "DESIGN.md section 3, C08",
+}
